@@ -169,8 +169,9 @@ func runGroup(idBase int, m, g int) *groupResult {
 	key := fmt.Sprintf("grp%d", idBase)
 	var preps []*prepared
 	for i := 0; i < g; i++ {
-		sp := &Spec{Route: "forward", NHosts: 2, RouteGlobalMs: 6 * slot, MaxRetries: m, RetryOn: true, NumRetries: 1, GroupKey: key,
-			Events: []Event{{AtMs: slot, Kind: "upresp", K: 0, Status: 503}, {AtMs: 3 * slot, Kind: "upresp", K: 1, Status: 200}}}
+		sp := &Spec{Route: "forward", NHosts: 2, RouteGlobalMs: 7 * slot, MaxRetries: m, RetryOn: true, NumRetries: 1, GroupKey: key,
+			// the 503s are staggered by 5 ms so that the retry decisions are ordered; every admitted retry is held until slot 4
+			Events: []Event{{AtMs: slot + 5*i, Kind: "upresp", K: 0, Status: 503}, {AtMs: 4 * slot, Kind: "upresp", K: 1, Status: 200}}}
 		preps = append(preps, prepareHistory(idBase+i, sp))
 	}
 	gr := &groupResult{M: m, G: g, Histories: make([]*Result, g)}
@@ -180,7 +181,7 @@ func runGroup(idBase int, m, g int) *groupResult {
 		wg.Add(1)
 		go func(i int, p *prepared) { defer wg.Done(); gr.Histories[i] = runPrepared(p) }(i, p)
 	}
-	time.Sleep(time.Duration(2*slot) * time.Millisecond)
+	time.Sleep(time.Duration(3*slot) * time.Millisecond)
 	mid, _ := retriesCur(key)
 	gr.CurMid = mid - c0
 	wg.Wait()
@@ -233,8 +234,59 @@ func c10(args []string) int {
 				run.Sum.Distribution["group:skipped-timing"]++
 				continue // the requests did not overlap as scripted; nothing can be concluded about the threshold
 			}
-			if gr.Admitted != want || gr.CurMid != int64(want) {
-				run.Fail("C10:threshold", fmt.Sprintf("max_retries=%d, %d concurrent retrying requests: %d admitted (want %d), Retries().Cur()=%d while they were in flight", m, g, gr.Admitted, want, gr.CurMid), replay)
+			_ = want
+			// the threshold, evaluated on the recorded times (robust against a loaded machine): request j decides when its 503 has
+			// been processed; it must be admitted iff fewer than m other requests hold a reservation at that moment (decided
+			// earlier, not yet released); decisions closer than 1 ms to another decision or release are not judged
+			type tl struct {
+				dec, rel int64
+				adm      bool
+			}
+			var ts []tl
+			for _, h := range gr.Histories {
+				var x tl
+				x.rel = 1 << 60
+				for _, rr := range h.Rec {
+					switch {
+					case rr.Kind == "ev.end" && rr.K == 0:
+						x.dec = rr.T
+					case rr.Kind == "up.new" && rr.K == 1:
+						x.adm = true
+					case rr.Kind == "ev.start" && rr.K == 1:
+						x.rel = rr.T
+					}
+				}
+				ts = append(ts, x)
+			}
+			for j, xj := range ts {
+				active, ambiguous := 0, false
+				for i, xi := range ts {
+					if i == j || !xi.adm {
+						if i != j && xi.dec-xj.dec < 1000 && xj.dec-xi.dec < 1000 {
+							ambiguous = true
+						}
+						continue
+					}
+					if d := xi.dec - xj.dec; d < 1000 && d > -1000 {
+						ambiguous = true
+					}
+					if d := xi.rel - xj.dec; d < 1000 && d > -1000 {
+						ambiguous = true
+					}
+					if xi.dec < xj.dec && xi.rel > xj.dec {
+						active++
+					}
+				}
+				if ambiguous {
+					run.Sum.Distribution["group:decision-not-judged"]++
+					continue
+				}
+				if xj.adm != (active < m) {
+					run.Fail("C10:threshold", fmt.Sprintf("max_retries=%d: a request decided its retry while %d other requests held a reservation and was admitted=%v", m, active, xj.adm), replay)
+				}
+			}
+			if gr.CurMid > int64(m) {
+				run.Fail("C10:threshold", fmt.Sprintf("max_retries=%d but Retries().Cur()=%d while the requests were in flight", m, gr.CurMid), replay)
 			}
 			if gr.CurEnd != 0 {
 				sig := "C10:retries-nonzero-at-idle"
